@@ -92,6 +92,31 @@ structure Sched where
   dt : Rat
   deriving Repr, DecidableEq
 
+/-- `np.isclose(a, b, rtol, atol)`: `|a - b| ≤ atol + rtol·|b|` -/
+structure Tol where
+  atol : Rat
+  rtol : Rat
+  deriving DecidableEq
+
+def closeTo (t : Tol) (a b : Rat) : Bool := decide (absR (a - b) ≤ t.atol + t.rtol * absR b)
+
+/-- `sc.findfirst(arr, val)` = first index with `np.isclose(arr[i], val, atol=eps)` -/
+def findFirstClose (t : Tol) (x : Rat) : List Rat → Option Nat
+  | [] => none
+  | y :: ys => if closeTo t y x then some 0 else (findFirstClose t x ys).map (· + 1)
+
+/-- tolerances of the matching in `RoutineDelivery.init_pre`: `valid` for `np.isclose(year, yearvec)` in the validation,
+    `find` for `sc.findfirst(yearvec, year)` -/
+structure Tols where
+  valid : Tol
+  find : Tol
+  deriving DecidableEq
+
+/-- library defaults: NumPy `rtol=1e-5, atol=1e-8`; sciris `findinds(eps=1e-6)` (→ `atol`) with NumPy's `rtol` -/
+def Tols.lib : Tols := ⟨⟨1 / 100000000, 1 / 100000⟩, ⟨1 / 1000000, 1 / 100000⟩⟩
+/-- exact matching (what the window is meant to be read with) -/
+def Tols.exact : Tols := ⟨⟨0, 0⟩, ⟨0, 0⟩⟩
+
 structure RoutineIn where
   yearvec : List Rat            -- sim.t.yearvec
   simStart : Rat                -- sim.pars.start
@@ -102,6 +127,7 @@ structure RoutineIn where
   prob : List Rat
   annual : Bool
   dt : Rat                      -- sim.pars.dt
+  tols : Tols := Tols.lib       -- matching tolerances of the library calls
 
 /-- `np.interp(x, years, prob)` where `years = [sy, sy+1, …]` (unit spacing, as `sc.inclusiverange(sy, ey)` builds
     them) and `x ≥ sy`; clamps beyond the last knot; a single knot is a constant. -/
@@ -121,9 +147,11 @@ def routineWindow (i : RoutineIn) : Option (Rat × Rat) :=
     | some a, some b => some (a, b)
     | _, _ => none
 
-/-- `(start_point, end_point)`: positions of the window years on the sim's year grid, the end moved by `adj_factor` -/
+/-- `(start_point, end_point)`: positions of the window years on the sim's year grid, the end moved by `adj_factor`.
+    `none`: the validation `any(isclose(start_year, yearvec)) and any(isclose(end_year, yearvec))` fails. -/
 def routinePoints (c : AdjConsts) (i : RoutineIn) (sy ey : Rat) : Option (Nat × Int) :=
-  match findFirst sy i.yearvec, findFirst ey i.yearvec with
+  if !(i.yearvec.any (fun y => closeTo i.tols.valid sy y) && i.yearvec.any (fun y => closeTo i.tols.valid ey y)) then none else
+  match findFirstClose i.tols.find sy i.yearvec, findFirstClose i.tols.find ey i.yearvec with
   | some sp, some ep0 => some (sp, (ep0 : Int) + adjFactor c i.dt)
   | _, _ => none
 
@@ -167,16 +195,24 @@ def campaignInit (timevec : List Rat) (years prob : List Rat) : Except Err Sched
     if prob'.length ≠ years.length then .error .value
     else .ok ⟨tps.map (fun (n : Nat) => (n : Int)), prob', false, 1⟩
 
-/-- How a `step` decides whether this is a delivery step -/
+/-- How a `step` decides whether this is a delivery step.  `timepoints` are positions on the SIM's time vector. -/
 inductive Gate
-  | onTi      -- `sim.ti in self.timepoints`
+  | onTi      -- `sim.ti in self.timepoints`: the sim's step index
+  | onOwnTi   -- `self.ti in self.timepoints`: the module's own step counter (≠ `sim.ti` when the module has its own dt)
   | onTimeObj -- `sim.t in self.timepoints`: a Time object is never an element of the index vector
   deriving DecidableEq, Repr
 
+/-- The two step counters a module sees when it is called: the sim's index and its own. -/
+structure Clock where
+  sim : Int
+  own : Int
+  deriving DecidableEq, Repr
+
 /-- the position of the step in the schedule if the gate opens -/
-def gateIndex (g : Gate) (s : Sched) (ti : Int) : Option Nat :=
+def gateIndex (g : Gate) (s : Sched) (c : Clock) : Option Nat :=
   match g with
-  | .onTi => findFirst ti s.timepoints
+  | .onTi => findFirst c.sim s.timepoints
+  | .onOwnTi => findFirst c.own s.timepoints
   | .onTimeObj => none
 
 /-- per-step probability used at schedule position `k` (`conv` = the annual→step conversion for this `dt`) -/
@@ -208,14 +244,18 @@ def bernoulliFilter (p : Rat) (draw : Nat → Rat) (uids : List Nat) : List Nat 
 inductive Vaccine
   | inert                                      -- `ss.Vx.administer`: does nothing
   | leaky (eff : Rat)                          -- rel_sus *= 1 - eff
-  | allOrNothing (eff : Rat) (fails : Nat → Bool)  -- rel_sus *= binomial(1, 1-eff): 1 where the vaccine failed
+  | allOrNothing (eff : Rat) (fails : Nat → Bool)
+      -- rel_sus[uids] *= np.random.binomial(1, 1-eff, len(uids)): `fails i` = the i-th variate (by POSITION in uids) is 1
 
-/-- factor `rel_sus` is multiplied by for a recipient.  `binomial(1, q)` is 0 for `q ≤ 0` and 1 for `q ≥ 1`
-    (NumPy, trusted); in between the outcome is the arbitrary stream `fails`. -/
+/-- factor `rel_sus` is multiplied by for the recipient at position `i` of the accepted uids.  `binomial(1, q)` is 0
+    for `q ≤ 0` and 1 for `q ≥ 1` (NumPy, trusted); in between the outcome is the stream `fails`. -/
 def Vaccine.factor : Vaccine → Nat → Rat
   | .inert, _ => 1
   | .leaky eff, _ => 1 - eff
-  | .allOrNothing eff fails, u => if 1 ≤ eff then 0 else if eff ≤ 0 then 1 else if fails u then 1 else 0
+  | .allOrNothing eff fails, i => if 1 ≤ eff then 0 else if eff ≤ 0 then 1 else if fails i then 1 else 0
+
+/-- position of the first occurrence of `u` (`acc` has no duplicates: it is a filtered uid list) -/
+def posOf (u : Nat) (acc : List Nat) : Nat := (findFirst u acc).getD 0
 
 structure VxRec where
   vaccinated : Nat → Bool
@@ -227,12 +267,12 @@ def vxApply (v : Vaccine) (ti : Int) (acc : List Nat) (r : VxRec) : VxRec :=
   { vaccinated := fun u => if u ∈ acc then true else r.vaccinated u
     nDoses := fun u => if u ∈ acc then r.nDoses u + 1 else r.nDoses u
     tiVacc := fun u => if u ∈ acc then some ti else r.tiVacc u
-    relSus := fun u => if u ∈ acc then r.relSus u * v.factor u else r.relSus u }
+    relSus := fun u => if u ∈ acc then r.relSus u * v.factor (posOf u acc) else r.relSus u }
 
 /-- `BaseVaccination.step`: returns the recipients and the new records -/
-def vxStep (g : Gate) (conv : Rat → Rat) (s : Sched) (v : Vaccine) (ti : Int) (active : List Nat) (e : Elig)
+def vxStep (g : Gate) (conv : Rat → Rat) (s : Sched) (v : Vaccine) (c : Clock) (active : List Nat) (e : Elig)
     (draw : Nat → Rat) (r : VxRec) : Except Err (List Nat × VxRec) :=
-  match gateIndex g s ti with
+  match gateIndex g s c with
   | none => .ok ([], r)
   | some k =>
     match stepProb conv s k with
@@ -242,11 +282,11 @@ def vxStep (g : Gate) (conv : Rat → Rat) (s : Sched) (v : Vaccine) (ti : Int) 
       | .error err => .error err
       | .ok el =>
         let acc := bernoulliFilter p draw el
-        .ok (acc, vxApply v ti acc r)
+        .ok (acc, vxApply v c.sim acc r)
 
 /-- a whole history of steps -/
 structure StepIn where
-  ti : Int
+  clock : Clock
   active : List Nat
   elig : Elig
   draw : Nat → Rat
@@ -254,7 +294,7 @@ structure StepIn where
 def vxRun (g : Gate) (conv : Rat → Rat) (s : Sched) (v : Vaccine) : List StepIn → VxRec → Except Err (List (List Nat) × VxRec)
   | [], r => .ok ([], r)
   | x :: xs, r =>
-    match vxStep g conv s v x.ti x.active x.elig x.draw r with
+    match vxStep g conv s v x.clock x.active x.elig x.draw r with
     | .error e => .error e
     | .ok (acc, r') =>
       match vxRun g conv s v xs r' with
@@ -305,27 +345,37 @@ def deliverTest (hasCov : Bool) (conv : Rat → Rat) (s : Sched) (k : Nat) (prod
       let acc := bernoulliFilter p draw el
       .ok (acc, if acc.isEmpty then outcomes else dxAdminister prod.nres prod.rows inState active pick acc)
 
-/-- `BaseScreening.step` (eligibility already evaluated by the subclass' `check_eligibility`) -/
+/-- `results[...][sim.ti]` is out of bounds for result arrays of length `resLen` -/
+def resultsOverrun (resLen : Option Nat) (c : Clock) : Bool :=
+  match resLen with
+  | some n => decide ((n : Int) ≤ c.sim)
+  | none => false
+
+/-- `BaseScreening.step` (eligibility already evaluated by the subclass' `check_eligibility`).
+    `resLen`: length of the module's own result arrays (`npts` of its own timeline); the step writes
+    `results['n_screened'][sim.ti]`, which raises IndexError when the module's timeline is coarser than the sim's and
+    `sim.ti` has run past it (`none`: results not modelled). -/
 def screenStep (hasCov : Bool) (g : Gate) (conv : Rat → Rat) (s : Sched) (prod : DxProduct) (inState : Nat → Nat → Bool)
-    (ti : Int) (active : List Nat) (elig : Except Err (List Nat)) (draw : Nat → Rat) (pick : Nat → Nat → Nat)
-    (r : TestRec) : Except Err (List Nat × TestRec) :=
-  match gateIndex g s ti with
+    (c : Clock) (active : List Nat) (elig : Except Err (List Nat)) (draw : Nat → Rat) (pick : Nat → Nat → Nat)
+    (r : TestRec) (resLen : Option Nat := none) : Except Err (List Nat × TestRec) :=
+  match gateIndex g s c with
   | none => .ok ([], r)
   | some k =>
     match deliverTest hasCov conv s k prod inState active elig draw pick r.outcomes with
     | .error err => .error err
     | .ok (acc, out) =>
+      if resultsOverrun resLen c then .error .index else
       .ok (acc, { screened := fun u => if u ∈ acc then true else r.screened u
                   screens := fun u => if u ∈ acc then r.screens u + 1 else r.screens u
-                  tiScreened := fun u => if u ∈ acc then some ti else r.tiScreened u
+                  tiScreened := fun u => if u ∈ acc then some c.sim else r.tiScreened u
                   outcomes := out })
 
 /-- `BaseTriage.step`: outcomes are reset every step; delivery only when the gate opens -/
 def triageStep (hasCov : Bool) (g : Gate) (conv : Rat → Rat) (s : Sched) (prod : DxProduct) (inState : Nat → Nat → Bool)
-    (ti : Int) (active : List Nat) (elig : Except Err (List Nat)) (draw : Nat → Rat) (pick : Nat → Nat → Nat)
+    (c : Clock) (active : List Nat) (elig : Except Err (List Nat)) (draw : Nat → Rat) (pick : Nat → Nat → Nat)
     : Except Err (List Nat × List (List Nat)) :=
   let empty := List.replicate prod.nres ([] : List Nat)
-  match gateIndex g s ti with
+  match gateIndex g s c with
   | none => .ok ([], empty)
   | some k => deliverTest hasCov conv s k prod inState active elig draw pick empty
 
@@ -405,6 +455,13 @@ def treatNumStep (hiOff : Int) (cap : Option Nat) (p : Rat) (rows : List TxRow) 
     else
       let out := txAdminister rows active treat effDraw st.flags
       ⟨q2, out.flags, out.successful, out.unsuccessful⟩)
+
+/-- `syph_treatment.step`: a `treat_num` step followed by `sim.people.syphilis.infected[treat_inds] = False`
+    (`clear` = number of the `infected` state array) — a further effect, on the treated only. -/
+def syphTreatStep (clear : Nat) (hiOff : Int) (cap : Option Nat) (p : Rat) (rows : List TxRow) (active eligAdd eligNow : List Nat)
+    (draw : Nat → Rat) (effDraw : Nat → Nat → Rat) (st : TreatState) : List Nat × TreatState :=
+  let out := treatNumStep hiOff cap p rows active eligAdd eligNow draw effDraw st
+  (out.1, { out.2 with flags := fun s u => if s = clear ∧ u ∈ out.1 then false else out.2.flags s u })
 
 /-- a history of `treat_num` steps; returns the treated lists -/
 structure TreatIn where
